@@ -66,6 +66,7 @@ func (cm *ControlManager) Add(runID string, ctl *Control) (old *Control) {
 		old.Replaced(ctl)
 	}
 	cm.ctlsByRunID[runID] = ctl
+	verifhook.At("cm.add", "run_id", runID, "ctl", verifhook.ID(ctl), "replaced", ok, "old", verifhook.ID(old))
 	return
 }
 
@@ -75,6 +76,7 @@ func (cm *ControlManager) Del(runID string, ctl *Control) {
 	defer cm.mu.Unlock()
 	if c, ok := cm.ctlsByRunID[runID]; ok && c == ctl {
 		delete(cm.ctlsByRunID, runID)
+		verifhook.At("cm.del", "run_id", runID, "ctl", verifhook.ID(ctl), "deleted", true)
 	}
 }
 
@@ -186,6 +188,7 @@ func NewControl(
 	}
 	ctl.lastPing.Store(time.Now())
 
+	verifhook.At("ctl.new", "ctl", verifhook.ID(ctl), "run_id", ctl.runID, "host", loginMsg.Hostname, "pool_count", ctl.poolCount, "req_pool", loginMsg.PoolCount)
 	if ctlConnEncrypted {
 		cryptoRW, err := netpkg.NewCryptoReadWriter(ctl.conn, []byte(ctl.serverCfg.Auth.Token))
 		if err != nil {
@@ -208,6 +211,7 @@ func (ctl *Control) Start() {
 		Error:   "",
 	}
 	_ = msg.WriteMsg(ctl.conn, loginRespMsg)
+	verifhook.At("ctl.start", "ctl", verifhook.ID(ctl), "run_id", ctl.runID)
 
 	go func() {
 		for i := 0; i < ctl.poolCount; i++ {
@@ -228,6 +232,7 @@ func (ctl *Control) Replaced(newCtl *Control) {
 	xl.Infof("Replaced by client [%s]", newCtl.runID)
 	ctl.runID = ""
 	ctl.conn.Close()
+	verifhook.At("ctl.replaced", "ctl", verifhook.ID(ctl), "by", verifhook.ID(newCtl))
 }
 
 func (ctl *Control) RegisterWorkConn(conn net.Conn) error {
@@ -235,6 +240,7 @@ func (ctl *Control) RegisterWorkConn(conn net.Conn) error {
 	defer func() {
 		if err := recover(); err != nil {
 			xl.Errorf("panic error: %v", err)
+			verifhook.At("pool.offer", "ctl", verifhook.ID(ctl), "result", "recovered", "len", 0)
 			xl.Errorf(string(debug.Stack()))
 		}
 	}()
@@ -242,9 +248,11 @@ func (ctl *Control) RegisterWorkConn(conn net.Conn) error {
 	select {
 	case ctl.workConnCh <- conn:
 		xl.Debugf("new work connection registered")
+		verifhook.At("pool.offer", "ctl", verifhook.ID(ctl), "result", "queued", "len", len(ctl.workConnCh))
 		return nil
 	default:
 		xl.Debugf("work connection pool is full, discarding")
+		verifhook.At("pool.offer", "ctl", verifhook.ID(ctl), "result", "full", "len", len(ctl.workConnCh))
 		return fmt.Errorf("work connection pool is full, discarding")
 	}
 }
@@ -271,11 +279,13 @@ func (ctl *Control) GetWorkConn() (workConn net.Conn, err error) {
 			return
 		}
 		xl.Debugf("get work connection from pool")
+		verifhook.At("pool.get", "ctl", verifhook.ID(ctl), "path", "fast", "len", len(ctl.workConnCh))
 	default:
 		// no work connections available in the poll, send message to frpc to get more
 		if err := ctl.msgDispatcher.Send(&msg.ReqWorkConn{}); err != nil {
 			return nil, fmt.Errorf("control is already closed")
 		}
+		verifhook.At("pool.req", "ctl", verifhook.ID(ctl), "why", "empty")
 
 		select {
 		case workConn, ok = <-ctl.workConnCh:
@@ -284,9 +294,11 @@ func (ctl *Control) GetWorkConn() (workConn net.Conn, err error) {
 				xl.Warnf("no work connections available, %v", err)
 				return
 			}
+			verifhook.At("pool.get", "ctl", verifhook.ID(ctl), "path", "slow", "len", len(ctl.workConnCh))
 
 		case <-time.After(time.Duration(ctl.serverCfg.UserConnTimeout) * time.Second):
 			err = fmt.Errorf("timeout trying to get work connection")
+			verifhook.At("pool.get", "ctl", verifhook.ID(ctl), "path", "timeout", "len", len(ctl.workConnCh))
 			xl.Warnf("%v", err)
 			return
 		}
@@ -294,6 +306,7 @@ func (ctl *Control) GetWorkConn() (workConn net.Conn, err error) {
 
 	// When we get a work connection from pool, replace it with a new one.
 	_ = ctl.msgDispatcher.Send(&msg.ReqWorkConn{})
+	verifhook.At("pool.req", "ctl", verifhook.ID(ctl), "why", "replace")
 	return
 }
 
@@ -306,6 +319,7 @@ func (ctl *Control) heartbeatWorker() {
 	go wait.Until(func() {
 		if time.Since(ctl.lastPing.Load().(time.Time)) > time.Duration(ctl.serverCfg.Transport.HeartbeatTimeout)*time.Second {
 			xl.Warnf("heartbeat timeout")
+			verifhook.At("ctl.heartbeat.timeout", "ctl", verifhook.ID(ctl))
 			ctl.conn.Close()
 			return
 		}
@@ -428,6 +442,7 @@ func (ctl *Control) handlePing(m msg.Message) {
 	}
 	if err != nil {
 		xl.Warnf("received invalid ping: %v", err)
+		verifhook.At("ctl.ping", "ctl", verifhook.ID(ctl), "ok", false)
 		_ = ctl.msgDispatcher.Send(&msg.Pong{
 			Error: util.GenerateResponseErrorString("invalid ping", err, lo.FromPtr(ctl.serverCfg.DetailedErrorsToClient)),
 		})
@@ -435,6 +450,7 @@ func (ctl *Control) handlePing(m msg.Message) {
 	}
 	ctl.lastPing.Store(time.Now())
 	xl.Debugf("receive heartbeat")
+	verifhook.At("ctl.ping", "ctl", verifhook.ID(ctl), "ok", true)
 	_ = ctl.msgDispatcher.Send(&msg.Pong{})
 }
 
